@@ -116,10 +116,24 @@ def check_lambda(rep, h):
                 hit = [st for st in sc.stores if st.base == base and st.off == off + t[2] and st.size == t[3] and st.cond == ir.TRUE]
                 return hit[-1].val if hit else None
             sides = []
+            other = []
             for i in lc.iv.values():
                 v = resolve(i["init"]) if i["init"][0] == 'ld' and i["init"][1][0] == 'mem' else None
                 if isinstance(v, tuple) and v[0] == 'call' and (v[1] or "").startswith(relayout.RP2):
                     sides.append(v)
+                elif isinstance(v, tuple) and v[0] not in ('ptr',) and any(a[0] == 'ld' and a[1] == ('arg', 0) for a in ir.atoms(v)):
+                    other.append(v)
+            if not sides and len(set(other)) == 1:
+                # a side computed by the constructor without round_pow2 (a bit trick): its value decides
+                ext = [relayout.src_size_atom(k) for k in range(m["N"])]
+                ok_, why_ = relayout.count_form(other[0], "hilbert", m["N"], ext, power=1)
+                if ok_:
+                    rep.ok("C05.b-hilbert", inst)
+                elif ok_ is None:
+                    rep.undecided("C05.b-hilbert %s: %s" % (inst, why_))
+                else:
+                    rep.fail("C05.b-hilbert", inst, file, "the side of the Hilbert walk used by the copy: " + why_)
+                return
             if len(set(sides)) != 1:
                 rep.undecided("C05.b-hilbert %s: the copy's Hilbert side comes neither from a round_pow2 call in the copy nor from a value the constructor computed with round_pow2 and handed to the copy through its closure; not decided" % inst)
                 return
@@ -229,6 +243,9 @@ def run_conversions(rep, tier, hs=None):
                 why = "extent %d of the converted field is %s, not the source's extent %d" % (k, ir.show(outs.get(8 * (1 + k)))[:80] if outs.get(8 * (1 + k)) else "unset", k)
         if why is None:
             ok, why2 = relayout.count_form(outs.get(0, ('undef',)), m["dst"].split("_")[0], N, sizes)
+            if ok is None:
+                rep.undecided("C05.c %s: storage %s" % (inst, why2))
+                continue
             if not ok:
                 why = "storage " + why2
         if why is None:
@@ -250,6 +267,9 @@ def run_conversions(rep, tier, hs=None):
                     why = "buffer size %s is not (element count) x sizeof(vector)=%d" % (ir.show(a)[:100], vs)
                 else:
                     ok, why2 = relayout.count_form(cnt, m["dst"].split("_")[0], N, sizes)
+                    if ok is None:
+                        rep.undecided("C05.c %s: allocated buffer: %s" % (inst, why2))
+                        continue
                     if not ok:
                         why = "allocated buffer: " + why2
         if why:
